@@ -1,10 +1,11 @@
 // Package vsched is a deterministic cooperative scheduler for systematic
 // concurrency testing of the garr packages. Code under test runs in an
-// import-rewritten scratch copy in which sync/atomic and sync are replaced by
-// the vatomic / vsync shims; every shared access first calls Yield, which is
-// the only place where control can move to another controlled thread. Exactly
-// one controlled thread runs at a time, so a schedule (the list of choices at
-// the yield points) determines the execution completely.
+// import-rewritten scratch copy in which sync/atomic, sync (and, for the worker
+// pool, channels, context and timers) are replaced by shims; every shared
+// access first calls Yield, which is the only place where control can move to
+// another controlled thread. Exactly one controlled thread runs at a time, so a
+// schedule (the list of choices at the scheduling points) determines the
+// execution completely.
 package vsched
 
 import (
@@ -17,37 +18,45 @@ type thread struct {
 	wake    chan struct{}
 	done    bool
 	blocked interface{} // non-nil: waiting for this object (a lock)
-	started bool
+	cond    func() bool // non-nil: parked until the predicate holds
+	daemon  bool        // spawned by the code under test (go statement)
+	body    func()
 }
 
 // Choice records one scheduling decision: Opts enabled alternatives, Pick chosen.
 type Choice struct{ Pick, Opts int }
 
 var (
-	mu          sync.Mutex // protects nothing at run time (one thread runs); guards setup/teardown
-	active      bool
-	threads     []*thread
-	cur         *thread
-	prefix      []int    // forced picks for the first scheduling points
-	Trace       []Choice // decisions taken in this run
-	Sched       []int    // thread id chosen at each scheduling point
-	preempts    int
-	MaxPreempt  = -1 // <0: unbounded
-	MaxSteps    = 5000
-	SpinLimit   = 150 // consecutive scheduling points of one thread before a forced hand-over
-	lastRun     = -1
+	mu         sync.Mutex // guards setup/teardown
+	active     bool
+	threads    []*thread
+	pending    []func() // go statements executed outside a controlled run
+	cur        *thread
+	prefix     []int    // forced picks for the first scheduling points
+	Trace      []Choice // decisions taken in this run
+	Sched      []int    // thread id chosen at each scheduling point
+	preempts   int
+	MaxPreempt = -1 // <0: unbounded
+	MaxSteps   = 5000
+	SpinLimit  = 150 // consecutive scheduling points of one thread before a forced hand-over
+	lastRun    = -1
 	consecutive int
-	steps       int
-	Aborted     string // non-empty: run was cut (step bound, deadlock)
-	finished    chan struct{}
-	Acc         []int // thread id of every logged (sync) access, in execution order
+	steps      int
+	Aborted    string // non-empty: run was cut (step bound, deadlock, panic)
+	finished   chan struct{}
+	Acc        []int // thread id of every logged (sync) access, in execution order
+	AccChoice  []int // parallel to Acc: the select case taken (index among the ready ones), -1 otherwise
 	// Picker, when set, decides the scheduling points beyond the forced prefix:
 	// it gets the ids of the runnable threads (the current one first when
 	// canStay) and returns an index into them.
 	Picker func(canStay bool, ids []int) int
 	// Fine enables the statement-level scheduling points (Plain) of the hunt build.
-	Fine bool
+	Fine        bool
+	atomicDepth int
 )
+
+// Active reports whether a controlled run is in progress.
+func Active() bool { return active }
 
 // Cur returns the id of the running controlled thread.
 func Cur() int {
@@ -57,7 +66,19 @@ func Cur() int {
 	return cur.id
 }
 
-var atomicDepth int
+// NumThreads returns the number of controlled threads created so far in this run.
+func NumThreads() int { return len(threads) }
+
+// LiveDaemons returns how many spawned threads have not terminated.
+func LiveDaemons() int {
+	n := 0
+	for _, t := range threads {
+		if t.daemon && !t.done {
+			n++
+		}
+	}
+	return n
+}
 
 // Atomic runs f without scheduling points: every shim call inside it is a
 // plain call (used by the wrappers that turn a whole queue / adder operation
@@ -72,6 +93,15 @@ func Atomic(f func()) {
 func Log() {
 	if active && atomicDepth == 0 {
 		Acc = append(Acc, cur.id)
+		AccChoice = append(AccChoice, -1)
+	}
+}
+
+// LogChoice records a select: one access together with the case taken.
+func LogChoice(k int) {
+	if active && atomicDepth == 0 {
+		Acc = append(Acc, cur.id)
+		AccChoice = append(AccChoice, k)
 	}
 }
 
@@ -83,6 +113,7 @@ func Step() {
 	}
 	Yield()
 	Acc = append(Acc, cur.id)
+	AccChoice = append(AccChoice, -1)
 }
 
 // Plain is an unlogged scheduling point (statement-level instrumentation).
@@ -95,23 +126,45 @@ func Plain() {
 // Abort cuts the current run from inside a controlled thread.
 func Abort(why string) { abort(why) }
 
-// Active reports whether a controlled run is in progress.
-func Active() bool { return active }
-
 type abortPanic struct{}
 
-// enabledExcept lists runnable threads, the current one first when runnable.
+func runnable(t *thread) bool {
+	return !t.done && t.blocked == nil && (t.cond == nil || t.cond())
+}
+
+// options lists runnable threads, the current one first when runnable.
 func options(me *thread) []*thread {
 	var opts []*thread
-	if me != nil && !me.done && me.blocked == nil {
+	if me != nil && runnable(me) {
 		opts = append(opts, me)
 	}
 	for _, t := range threads {
-		if t != me && !t.done && t.blocked == nil {
+		if t != me && runnable(t) {
 			opts = append(opts, t)
 		}
 	}
 	return opts
+}
+
+func decide(canStay bool, n int, ids func(i int) int) int {
+	k := 0
+	if len(Trace) < len(prefix) {
+		k = prefix[len(Trace)]
+		if k >= n {
+			k = n - 1
+		}
+	} else if Picker != nil && n > 1 {
+		l := make([]int, n)
+		for i := 0; i < n; i++ {
+			l[i] = ids(i)
+		}
+		k = Picker(canStay, l)
+		if k < 0 || k >= n {
+			k = 0
+		}
+	}
+	Trace = append(Trace, Choice{k, n})
+	return k
 }
 
 // pick chooses the next thread to run at a scheduling point.
@@ -120,7 +173,7 @@ func pick(me *thread) *thread {
 	if len(opts) == 0 {
 		return nil
 	}
-	canStay := me != nil && !me.done && me.blocked == nil
+	canStay := me != nil && runnable(me)
 	n := len(opts)
 	if canStay {
 		if lastRun == me.id {
@@ -142,23 +195,7 @@ func pick(me *thread) *thread {
 	if canStay && MaxPreempt >= 0 && preempts >= MaxPreempt {
 		n = 1 // no preemption budget left: must stay
 	}
-	k := 0
-	if len(Trace) < len(prefix) {
-		k = prefix[len(Trace)]
-		if k >= n {
-			k = n - 1
-		}
-	} else if Picker != nil && n > 1 {
-		ids := make([]int, n)
-		for i := 0; i < n; i++ {
-			ids[i] = opts[i].id
-		}
-		k = Picker(canStay, ids)
-		if k < 0 || k >= n {
-			k = 0
-		}
-	}
-	Trace = append(Trace, Choice{k, n})
+	k := decide(canStay, n, func(i int) int { return opts[i].id })
 	if canStay && k != 0 {
 		preempts++
 	}
@@ -167,6 +204,15 @@ func pick(me *thread) *thread {
 		lastRun, consecutive = opts[k].id, 0
 	}
 	return opts[k]
+}
+
+// Choose is a recorded, enumerable non-deterministic choice among n alternatives
+// (which ready case a select takes).
+func Choose(n int) int {
+	if !active || n <= 1 {
+		return 0
+	}
+	return decide(false, n, func(i int) int { return i })
 }
 
 func switchTo(me, next *thread) {
@@ -202,13 +248,32 @@ func abort(why string) {
 	panic(abortPanic{})
 }
 
+// nobody can run: either the scenario is over (every client thread returned;
+// spawned threads may stay parked, e.g. idle workers) or it is a deadlock.
+func stuck(me *thread) {
+	for _, o := range threads {
+		if !o.done && !o.daemon {
+			what := "a lock"
+			if o.cond != nil {
+				what = "a channel / wait-group / gate condition"
+			}
+			abort(fmt.Sprintf("deadlock: client thread %d is blocked forever on %s", o.id, what))
+		}
+	}
+	closeFinished()
+	if me != nil && !me.done {
+		<-me.wake // parked for good (leaked)
+	}
+}
+
 // Block parks the current thread until Unblock(obj); used by the lock shims.
 func Block(obj interface{}) {
 	me := cur
 	me.blocked = obj
 	next := pick(me)
 	if next == nil {
-		abort(fmt.Sprintf("deadlock: every thread is blocked (thread %d on %T)", me.id, obj))
+		stuck(me)
+		return
 	}
 	switchTo(me, next)
 }
@@ -222,6 +287,39 @@ func Unblock(obj interface{}) {
 	}
 }
 
+// WaitUntilQuiet blocks the running thread until cond holds; on return cond is
+// true and no other thread has run since it was evaluated (the caller performs
+// its action atomically and logs it itself).
+func WaitUntilQuiet(cond func() bool) {
+	if !active || atomicDepth > 0 {
+		if !cond() {
+			panic("vsched: operation would block outside a controlled run")
+		}
+		return
+	}
+	me := cur
+	for {
+		Yield()
+		if cond() {
+			return
+		}
+		me.cond = cond
+		next := pick(me)
+		if next == nil {
+			stuck(me)
+		} else {
+			switchTo(me, next)
+		}
+		me.cond = nil
+	}
+}
+
+// WaitUntil is WaitUntilQuiet followed by a logged access.
+func WaitUntil(cond func() bool) {
+	WaitUntilQuiet(cond)
+	Log()
+}
+
 func closeFinished() {
 	select {
 	case <-finished:
@@ -230,50 +328,68 @@ func closeFinished() {
 	}
 }
 
-// Run executes the given thread bodies under the schedule prefix (remaining
-// choices default to "stay on the current thread, else lowest id").
-// It returns the decisions taken.
+func launch(t *thread) {
+	go func() {
+		<-t.wake
+		defer func() {
+			if r := recover(); r != nil {
+				if _, ok := r.(abortPanic); !ok && Aborted == "" {
+					Aborted = fmt.Sprintf("panic in thread %d: %v", t.id, r)
+				}
+			}
+			t.done = true
+			if Aborted != "" {
+				closeFinished()
+				return
+			}
+			next := pick(nil)
+			if next == nil {
+				defer func() {
+					if r := recover(); r != nil {
+						closeFinished()
+					}
+				}()
+				stuck(nil)
+				return
+			}
+			cur = next
+			next.wake <- struct{}{}
+		}()
+		t.body()
+	}()
+}
+
+// Go is the `go` statement of the code under test: a new controlled (daemon)
+// thread; outside a controlled run the body is kept until the next Run starts.
+func Go(f func()) {
+	if !active {
+		pending = append(pending, f)
+		return
+	}
+	t := &thread{id: len(threads), wake: make(chan struct{}, 1), daemon: true, body: f}
+	threads = append(threads, t)
+	launch(t)
+}
+
+// Run executes the given thread bodies (plus the threads spawned before the run)
+// under the schedule prefix (remaining choices default to "stay on the current
+// thread, else lowest id"). It returns the decisions taken.
 func Run(bodies []func(), forced []int) []Choice {
 	mu.Lock()
 	defer mu.Unlock()
 	threads = nil
-	prefix, Trace, Sched, preempts, steps, Aborted, Acc = forced, nil, nil, 0, 0, "", nil
+	prefix, Trace, Sched, preempts, steps, Aborted, Acc, AccChoice = forced, nil, nil, 0, 0, "", nil, nil
 	lastRun, consecutive = -1, 0
 	finished = make(chan struct{})
-	for i := range bodies {
-		threads = append(threads, &thread{id: i, wake: make(chan struct{}, 1)})
+	for _, body := range bodies {
+		threads = append(threads, &thread{id: len(threads), wake: make(chan struct{}, 1), body: body})
 	}
-	for i, body := range bodies {
-		t, body := threads[i], body
-		go func() {
-			<-t.wake
-			t.started = true
-			defer func() {
-				if r := recover(); r != nil {
-					if _, ok := r.(abortPanic); !ok && Aborted == "" {
-						Aborted = fmt.Sprintf("panic in thread %d: %v", t.id, r)
-					}
-				}
-				t.done = true
-				if Aborted != "" {
-					closeFinished()
-					return
-				}
-				next := pick(nil)
-				if next == nil {
-					for _, o := range threads {
-						if !o.done {
-							Aborted = fmt.Sprintf("deadlock: thread %d is blocked forever", o.id)
-						}
-					}
-					closeFinished()
-					return
-				}
-				cur = next
-				next.wake <- struct{}{}
-			}()
-			body()
-		}()
+	for _, body := range pending {
+		threads = append(threads, &thread{id: len(threads), wake: make(chan struct{}, 1), body: body, daemon: true})
+	}
+	pending = nil
+	for _, t := range threads {
+		launch(t)
 	}
 	active = true
 	first := pick(nil)
@@ -283,6 +399,9 @@ func Run(bodies []func(), forced []int) []Choice {
 	active = false
 	return Trace
 }
+
+// DropPending forgets go statements executed outside a run (scenario set-up that is discarded).
+func DropPending() { pending = nil }
 
 // NextPrefix returns the next schedule prefix in depth-first order, or nil when exhausted.
 func NextPrefix(tr []Choice) []int {
